@@ -43,7 +43,7 @@ func execLoss(run *simkit.Run) {
 	grace := time.Duration(c.Int("grace_ms")) * time.Millisecond
 	for i := 0; i < c.Int("nodes"); i++ {
 		w.startNode(nodeOpts{interval: interval, grace: grace})
-		if run.Failed() {
+		if run.Stop() {
 			return
 		}
 	}
@@ -62,7 +62,7 @@ func execLoss(run *simkit.Run) {
 		return
 	}
 	for i, op := range c.Script {
-		if run.Failed() {
+		if run.Stop() {
 			break
 		}
 		run.Step = i
